@@ -1,5 +1,5 @@
 """P01 - the TLA+ proof system checks (unbounded, model level; not in MANIFEST.checks):
-   proofs/util/ProgressProof (C19), proofs/logger/LogSinkProof (C02), proofs/tasklane/TaskLaneProof + TaskLaneInv + 8 step modules (C06, C07), proofs/tasklane/TaskLaneShareProof (C08)."""
+   proofs/util/ProgressProof (C19), proofs/logger/LogSinkProof (C02), proofs/tasklane/TaskLaneProof + TaskLaneInv + 8 step modules (C06, C07), proofs/tasklane/TaskLaneShareProof (C08), proofs/tasklane/TaskLaneCountProof + TaskLaneStatusProof (C14)."""
 TASKLANE_PROOF = ["TaskLaneInv", "TaskLaneStepA", "TaskLaneStepB", "TaskLaneStepC", "TaskLaneStepD", "TaskLaneStepE",
                   "TaskLaneStepF", "TaskLaneStepG", "TaskLaneStepH", "TaskLaneProof"]
 
@@ -8,6 +8,8 @@ def run(ctx):
     n1 = ctx.tlaps("util", "ProgressProof", tag="ProgressProof: SizeIsSum, Monotone, EachIsASize, NeverParksInWrite, CloseDeliversTotal for any number of writes / byte counts")
     n2 = ctx.tlaps("logger", "LogSinkProof", tag="LogSinkProof: one writer at a time, own line, pool safety for any goroutines / records / derived handlers")
     n3 = ctx.tlaps("tasklane", TASKLANE_PROOF, tag="TaskLaneProof: AtMostOnce, NoRejectedRun, StartedOnlyIfPushed, PostCancelReject, WaitOnlyWhenQuiet for any N, Q, tasks, producers")
+    n5 = ctx.tlaps("tasklane", ["TaskLaneCountProof", "TaskLaneStatusProof"], tag="TaskLaneCountProof + TaskLaneStatusProof: CntBounds, StatusBounds (C14) for any N, Q, tasks, producers")
+    n3 += n5
     n4 = ctx.tlaps("tasklane", "TaskLaneShareProof", tag="TaskLaneShareProof: NoIdleWhileWaiting (C08) for any N, Q, tasks, producers")
     n3 += n4
     ctx.cov.update({"evaluations": n1 + n2 + n3, "distinct_nontrivial": n3,
